@@ -190,9 +190,6 @@ HandleSnapshot(i, s, m) ==
                               !.match = [j \in Server |-> IF j = i THEN sn.idx ELSE 0],
                               !.nx = [j \in Server |-> sn.idx + 1]]
           IN {Res(s2, {Resp("MsgAppResp", i, m.from, s2.term, sn.idx, FALSE, 0)})}
-             \* the code also refuses when the replica is in nobody's voter set but not flagged learner
-             \* (finding raft-restarted-learner-rejects-snapshot); refusing is an omission and accepted
-             \cup (IF Members(s) # {} /\ ~s.isl /\ i \in sn.learners THEN {ack(s)} ELSE {})
 
 \* ---- proposals (stepLeader MsgProp, with the pendingConf downgrade)
 ProposeRes(i, s, e) ==
